@@ -18,10 +18,23 @@ func (ip *Interp) addPC(t *sym.Term) {
 	if t.IsConst() {
 		return
 	}
-	if !ip.pcSet[t] {
-		ip.pcSet[t] = true
-		ip.pc = append(ip.pc, t)
+	if ip.pcSet[t] {
+		return
 	}
+	ip.pcSet[t] = true
+	// conjunctions are stored as their conjuncts so that constraint-independence
+	// slicing is not glued together by one big And
+	switch {
+	case t.Op == sym.OpAnd:
+		ip.addPC(t.Args[0])
+		ip.addPC(t.Args[1])
+		return
+	case t.Op == sym.OpNot && t.Args[0].Op == sym.OpOr:
+		ip.addPC(ip.ctx.Not(t.Args[0].Args[0]))
+		ip.addPC(ip.ctx.Not(t.Args[0].Args[1]))
+		return
+	}
+	ip.pc = append(ip.pc, t)
 }
 
 // slicedPC returns the conjuncts of the path condition that (transitively)
@@ -96,24 +109,156 @@ func cloneModel(m map[string]uint64) map[string]uint64 {
 // with the solver's values for the variables of the slice (a model of PC ∧ c,
 // because the rest of the path condition shares no variable with the slice).
 func (ip *Interp) solve(c *sym.Term) (bool, map[string]uint64) {
-	q := append(ip.slicedPC(c), c)
-	res, m, err := ip.Sol.Check(q, true)
-	if err != nil || res == solver.Unknown {
-		msg := "solver unknown"
-		if err != nil {
-			msg = err.Error()
-		}
-		ip.inconcl = append(ip.inconcl, msg)
-		return false, nil // side not explored; the run is flagged inconclusive
+	return ip.solveWith(c, true)
+}
+
+// solveZ3 always asks the SMT solver (used for assertions).
+func (ip *Interp) solveZ3(c *sym.Term) (bool, map[string]uint64) {
+	return ip.solveWith(c, false)
+}
+
+func flattenAnd(t *sym.Term, out []*sym.Term) []*sym.Term {
+	if t.Op == sym.OpAnd {
+		out = flattenAnd(t.Args[0], out)
+		return flattenAnd(t.Args[1], out)
 	}
-	if res != solver.Sat {
-		return false, nil
+	return append(out, t)
+}
+
+// solveWith decides sat(PC ∧ c). The relevant constraints (the slice of the
+// path condition sharing variables with c, plus c's conjuncts) are partitioned
+// into variable-disjoint components which are decided independently.
+func (ip *Interp) solveWith(c *sym.Term, allowEnum bool) (bool, map[string]uint64) {
+	terms := append(ip.slicedPC(c), flattenAnd(c, nil)...)
+	// union-find over variables
+	parent := map[*sym.Term]*sym.Term{}
+	var find func(v *sym.Term) *sym.Term
+	find = func(v *sym.Term) *sym.Term {
+		p, ok := parent[v]
+		if !ok || p == v {
+			parent[v] = v
+			return v
+		}
+		r := find(p)
+		parent[v] = r
+		return r
+	}
+	tvars := make([][]*sym.Term, len(terms))
+	for i, t := range terms {
+		vs := map[*sym.Term]bool{}
+		sym.Vars(t, map[*sym.Term]bool{}, vs)
+		var first *sym.Term
+		for v := range vs {
+			tvars[i] = append(tvars[i], v)
+			if first == nil {
+				first = find(v)
+			} else {
+				parent[find(v)] = first
+			}
+		}
+	}
+	groups := map[*sym.Term][]*sym.Term{}
+	var order []*sym.Term
+	for i, t := range terms {
+		if len(tvars[i]) == 0 {
+			if t.IsConst() && t.Val == 0 {
+				return false, nil
+			}
+			continue
+		}
+		r := find(tvars[i][0])
+		if _, ok := groups[r]; !ok {
+			order = append(order, r)
+		}
+		groups[r] = append(groups[r], t)
 	}
 	nm := cloneModel(ip.model)
-	for k, v := range m {
-		nm[k.Name] = v
+	for _, r := range order {
+		q := groups[r]
+		if allowEnum && !ip.NoByteEnum {
+			if ok, sat, m := ip.enumSingleByte(q); ok {
+				if !sat {
+					return false, nil
+				}
+				for k, v := range m {
+					nm[k] = v
+				}
+				continue
+			}
+		}
+		res, m, err := ip.Sol.Check(q, true)
+		if err != nil || res == solver.Unknown {
+			msg := "solver unknown"
+			if err != nil {
+				msg = err.Error()
+			}
+			ip.inconcl = append(ip.inconcl, msg)
+			return false, nil // side not explored; the run is flagged inconclusive
+		}
+		if res != solver.Sat {
+			return false, nil
+		}
+		for k, v := range m {
+			nm[k.Name] = v
+		}
 	}
 	return true, nm
+}
+
+// enumSingleByte is a complete finite-domain pre-solver used only for branch
+// feasibility: when the (sliced) query mentions exactly one variable and that
+// variable is at most 8 bits wide, all of its values are tried by evaluating
+// the conjunction. Everything else, and every assertion, goes to the SMT solver.
+func (ip *Interp) enumSingleByte(q []*sym.Term) (handled, sat bool, nm map[string]uint64) {
+	vars := map[*sym.Term]bool{}
+	seen := map[*sym.Term]bool{}
+	for _, t := range q {
+		sym.Vars(t, seen, vars)
+		if len(vars) > 1 {
+			return false, false, nil
+		}
+	}
+	if len(vars) != 1 {
+		return false, false, nil
+	}
+	var v *sym.Term
+	for x := range vars {
+		v = x
+	}
+	if v.W > 8 {
+		return false, false, nil
+	}
+	ip.Stats.EnumQueries++
+	n := uint64(1) << uint(max(v.W, 1))
+	asg := map[string]uint64{}
+	try := func(val uint64) bool {
+		asg[v.Name] = val
+		memo := map[*sym.Term]uint64{}
+		for _, t := range q {
+			if ip.ctx.Eval(t, asg, memo) == 0 {
+				return false
+			}
+		}
+		return true
+	}
+	found := uint64(0)
+	ok := false
+	// prefer printable witnesses
+	for _, val := range []uint64{'a', 'b', 'z', 'A', '0', ' '} {
+		if val < n && try(val) {
+			found, ok = val, true
+			break
+		}
+	}
+	for val := uint64(0); !ok && val < n; val++ {
+		if try(val) {
+			found, ok = val, true
+		}
+	}
+	if !ok {
+		return true, false, nil
+	}
+	return true, true, map[string]uint64{v.Name: found}
 }
 
 // feasible reports whether PC ∧ c is satisfiable (model discarded).
